@@ -239,6 +239,7 @@ func genCursorCase(withFaults bool) *rapid.Generator[CursorCase] {
 			c.World = CursorWorldSpec{Files: pick(t, "bfiles", []int{2, 4}), Blocks: pick(t, "bblocks", []int{2, 3}), Rows: pick(t, "brows", []int{70, 200}), BadTail: true}
 			c.Query = pick(t, "bquery", []string{"all", "token", "all", "file0"})
 			c.Faults, c.LatencyUs = nil, 0
+			c.IterGate = -1 // no gated iteration here: the script reads rows the gate would hold back
 			c.QConc = pick(t, "bqconc", []int{1000, 8, 2})
 			switch unif(t, "bscript", 4) {
 			case 0:
@@ -258,6 +259,7 @@ func genCursorCase(withFaults bool) *rapid.Generator[CursorCase] {
 			c.World = CursorWorldSpec{Files: pick(t, "rfiles", []int{2, 4}), Blocks: pick(t, "rblocks", []int{2, 3}), Rows: pick(t, "rrows", []int{70, 200})}
 			c.Query = "all"
 			c.LatencyUs = 0
+			c.IterGate = -1
 			c.QConc = pick(t, "rqconc", []int{1000, 8})
 			c.Procs = pick(t, "rprocs", []int{0, 4, 2})
 			if withFaults {
